@@ -112,7 +112,7 @@ pub fn run(tier: Tier, seed: u64) -> i32 {
         lists.push(vec![a]);
     }
     let pair_forms: Vec<usize> = match tier {
-        Tier::Quick => (0..nforms).filter(|f| [0usize, 1, 4, 8, 12, 14].contains(&(f / 2))).collect(),
+        Tier::Quick => (0..nforms).collect(),
         Tier::Thorough => (0..nforms).collect(),
     };
     for a in &pair_forms {
